@@ -9,7 +9,7 @@
   3. the recorded answers are judged by TLC with CubicTrace (same rule operators as the contract).
   4. impl -> spec: long seeded random call sequences (unit_cubic record), judged by CubicTrace.
 A broken rule on a real answer is a VIOLATION; the replay file holds the call sequence that leads to it."""
-import json, os, re, time, shutil
+import json, os, re, time, shutil, hashlib
 from concurrent.futures import ThreadPoolExecutor
 from . import core
 
@@ -127,7 +127,29 @@ def write_shards(cases, sub, nshards, prefix):
             count[k] += 1
     for f in files:
         f.close()
-    return [(f"{prefix}{k}.cases.ndjson", count[k]) for k in range(nshards) if load[k] > 0]
+    glob = [sorted(local[k], key=local[k].get) for k in range(nshards)]   # line number in the shard -> case index
+    return [(f"{prefix}{k}.cases.ndjson", glob[k]) for k in range(nshards) if load[k] > 0]
+
+
+def drift(edges, shards):
+    """spec -> impl comparison of answers: how often the real controller's (w, u, s) after the last call of a
+    case equals (within 2 bytes) what the contract's witness machine answers.  A statistic, never a verdict:
+    the contract is nondeterministic (congestion-avoidance growth, the value kept below the floor)."""
+    agree = total = 0
+    first = None
+    for path, glob in shards:
+        with open(path.replace(".cases.ndjson", ".answers.ndjson")) as f:
+            for l in f:
+                if '"case"' not in l:
+                    continue
+                r = json.loads(l)
+                to = edges[glob[r["case"]]][3]
+                total += 1
+                if all(abs(a - b) <= 2 for a, b in zip((r["w"], r["u"], r["s"]), to[-3:])):
+                    agree += 1
+                elif first is None:
+                    first = {"witness_w_u_s": list(to[-3:]), "answer": {k: r[k] for k in ("op", "w", "u", "s")}}
+    return {"cases_compared": total, "answers_equal_to_witness": agree, "first_difference": first}
 
 
 # ------------------------------------------------------------------------------------------ traces
@@ -157,6 +179,22 @@ def script_of(trace_path, line):
             break
     seq.reverse()
     return seq
+
+
+def run_hashes(trace_path):
+    """One hash per recorded run (the calls between two `new` lines, arguments only)."""
+    out, h = set(), None
+    with open(trace_path) as f:
+        for l in f:
+            if '"op":"new"' in l:
+                if h is not None:
+                    out.add(h.hexdigest())
+                h = hashlib.md5()
+            r = json.loads(l)
+            h.update(json.dumps({k: v for k, v in r.items() if k not in OBS_KEYS}, sort_keys=True).encode())
+    if h is not None:
+        out.add(h.hexdigest())
+    return out
 
 
 def validate(jobs, workers):
@@ -214,14 +252,14 @@ def run(tier, seed):
     core.log(f"[C15] MCCubic: {res.get('states')} states, {len(edges)} transitions/cases in {time.time()-t0:.1f}s")
 
     # 2./3. spec -> impl -> spec
-    shards = write_shards(cases, sub, workers, SCR + "/run/mc")
+    nrec, per = (12, 120000) if thorough else (4, 25000)
+    shards = write_shards(cases, sub, workers if thorough else max(2, workers - nrec), SCR + "/run/mc")
     jobs = []
     for path, _n in shards:
         ans = path.replace(".cases.ndjson", ".answers.ndjson")
         jobs.append(("mc" + os.path.basename(path).split(".")[0],
                      (lambda path=path, ans=ans: (run_bin(["replay", path, ans]), ans)[1])))
     # 4. impl -> spec
-    nrec, per = (12, 120000) if thorough else (4, 25000)
     for i in range(nrec):
         tp = f"{SCR}/run/rec{i}.ndjson"
         jobs.append((f"rec{i}", (lambda tp=tp, i=i: (run_bin(["record", str(seed * 1000 + i), str(per), tp]), tp)[1])))
@@ -247,12 +285,16 @@ def run(tier, seed):
                 continue
             seen_sig.add(sig)
             r.violations.append((x, script_of(v["trace"], x["line"]), v["trace"]))
+    # evaluations = cases (one per transition of the model) + recorded runs; distinct = measured
     r.scripts = len(cases) + rec_runs
-    r.distinct = set(range(mc_lines + rec_runs))   # distinct call-sequence prefixes executed + recorded runs
+    r.distinct = set(cases)
+    for i in range(nrec):
+        r.distinct |= run_hashes(f"{SCR}/run/rec{i}.ndjson")
     pick = [i for i in (len(cases) // 3, 2 * len(cases) // 3, len(cases) - 1) if 0 <= i < len(cases)]
     r.samples = [full_case(cases, i) for i in pick[:2]]
     with open(f"{SCR}/run/rec0.ndjson") as f:
         r.samples.append({"recorded": [json.loads(next(f)) for _ in range(4)]})
+    r.notes["witness_drift"] = drift(edges, shards)
     r.notes["mc_calls_by_op"] = by_op
     r.notes["replayed_prefixes"] = mc_lines
     r.notes["recorded_lines"] = rec_lines
@@ -261,8 +303,8 @@ def run(tier, seed):
     return r.finish(
         rule_text="case = canonical call history of a reachable contract state of MCCubic + one call (or the pair "
                   "set_mss; set_remote_window) with boundary arguments (acked 0/1/mss/10mss/2^30, rwnd 0/1/mss-1/2mss/2^30, "
-                  "mss 1/5/528/1452/9000, clock advance 0..1h, rtt 0/1ns/50ms/1h); distinct = distinct call-sequence "
-                  "prefixes executed on the real Cubic (trie nodes) + seeded random recorded runs",
+                  "mss 1/5/528/1452/9000, clock advance 0..1h, rtt 0/1ns/50ms/1h); distinct = distinct (history, call) "
+                  "cases + distinct seeded random recorded runs (40..400 calls each)",
         required_cov=RULES)
 
 
